@@ -513,3 +513,29 @@ def c04_r7(ctx):
                                   "got that number meanwhile" % attr, path=cfgmod.path_text(bad) if bad else None, loc=ctx.nodeloc(f, c))
     if m < 2:
         raise AnalysisError("only %d os.close(self.<fd>) sites found in the file locks" % m)
+
+
+@rule("C04", "R8", "K3", "the in-memory write lock is not re-entrant",
+      min_instances=1, also=("C18",),
+      clause="RamLock -- the write lock of RamStorage and of every index copied to RAM -- wraps threading.Lock (resolved through the "
+             "module's imports), never a re-entrant lock: a second writer opened by the thread that already holds one must get LockError "
+             "exactly like with a file lock, or two writers of one thread publish conflicting generations.")
+def c04_r8(ctx):
+    prog = ctx.prog
+    K = prog.cls("filedb.filestore.RamLock")
+    init = K.methods.get("__init__")
+    if init is None:
+        raise AnalysisError("RamLock has no constructor")
+    ctx.saw(init)
+    made = []
+    for st in ast.walk(init.node):
+        if isinstance(st, ast.Assign) and any(norm.canon(t).startswith("self.") for t in st.targets) and isinstance(st.value, ast.Call):
+            fn = st.value.func
+            r = prog.resolve_in_func(init, fn) if isinstance(fn, (ast.Name, ast.Attribute)) else None
+            name = None
+            if r is not None and r[0] == "external":
+                name = ".".join(str(x) for x in r[1:]) if len(r) > 1 else norm.canon(fn)
+            made.append((norm.canon(st.targets[0]), norm.canon(fn), name))
+    locks = [m for m in made if "lock" in m[1].lower() or "semaphore" in m[1].lower()]
+    ok = len(locks) == 1 and (locks[0][2] or locks[0][1]).split(".")[-1] == "Lock"
+    ctx.ob(K, ok, "RamLock is built on threading.Lock", detail=str(locks), loc=init.loc)
